@@ -21,10 +21,10 @@ NSh  == EnvInt("Q_SHUFFLES", 60)
 Emit(c) == PrintT("CASE " \o ToJson(c))
 
 LevelDecs == <<"0.001", "0.01", "0.05", "0.1", "0.2", "0.25", "0.3", "0.5", "0.75", "0.8", "0.9", "0.95",
-               "0.975", "0.99", "0.995", "0.999", "0.9999">>
+               "0.975", "0.99", "0.995", "0.998", "0.999", "0.9995", "0.9999">>
 CKinds == <<"two", "upper", "lower">>
 Conf(ki, li) == [kind |-> CKinds[ki], level |-> [dec |-> LevelDecs[li]]]
-LevSel == {1, 8, 10, 12, 17}
+LevSel == {1, 8, 10, 12, 19}
 
 VARIABLE done
 Init == done = FALSE
